@@ -176,7 +176,7 @@ func C12() int {
 	})
 	reportBatchAnomalies(c)
 	c.Set("namespace_position_cells", cells)
-	c.Set("race_reports", s.RaceReports())
+	raceVerdict(s, c)
 	if c.Counter("logs") < 300 || c.Counter("namespace_positions_checked") < 10000 {
 		c.Inconclusive("too few logs / positions")
 	}
